@@ -30,7 +30,7 @@ def nullable_fields(prog, records=("file_entry", "econf_file")):
         for lhs, rhs, st, kind in query.stores(f):
             l = lhs.strip()
             if kind == "=" and rhs is not None and rhs.is_null_const() and l.k == "MemberExpr" and l.j.get("rec") in records \
-                    and l.j.get("ct") in ("char *", "const char *"):
+                    and l.j.get("ct") in ("char *", "const char *") and not query.is_slot_init(st):
                 out.add((l.j["rec"], l.j["member"]))
     # objects created with calloc start with NULL in every field
     return out
@@ -200,6 +200,7 @@ def analyse(prog, functions):
                     wp = cfg.feasible_reach(cfg.block_of(u), lambda lit, b, i, v=v: guard(lit, b, i) or (
                         lit is not None and lit.pol and lit.kind == "truth" and lit.node is not None and lit.node.k == "BinaryOperator"
                         and lit.node.j.get("op") == "=" and render(lit.node.children[0]) == v), lambda a, v=v: a == v,
-                        start=sb, start_index=(si[1] if isinstance(si, tuple) else si) + 1)
+                        start=sb, start_index=(si[1] if isinstance(si, tuple) else si) + 1,
+                        nonempty=(cfg.block_of(u) == sb and (cfg.index_of(u) or (0, 0))[1] <= (si[1] if isinstance(si, tuple) else si)))
                     out.append(NullUse(f, u, acc, s2, wp is None, cfg.describe_path(wp)[-6:] if wp else [], via=v))
     return nf, out
